@@ -160,6 +160,48 @@ fn matches_known<'a>(known: &'a [Known], prop: &str, scen: &str, v: &Violation) 
     })
 }
 
+/// (run index + 1, seed, started-at in ms since process start); 0 = idle.
+static WATCH: [std::sync::atomic::AtomicU64; 3] = [
+    std::sync::atomic::AtomicU64::new(0),
+    std::sync::atomic::AtomicU64::new(0),
+    std::sync::atomic::AtomicU64::new(0),
+];
+
+/// A run that does not come back (a spin without scheduling points, typically memory
+/// already corrupted) cannot be minimised or replayed from inside; name it and give up.
+fn start_watchdog(limit_s: u64) {
+    use std::sync::atomic::Ordering::SeqCst;
+    let t0 = Instant::now();
+    std::thread::spawn(move || {
+        loop {
+            std::thread::sleep(Duration::from_millis(500));
+            let idx = WATCH[0].load(SeqCst);
+            if idx == 0 {
+                continue;
+            }
+            let started = WATCH[2].load(SeqCst);
+            let now = t0.elapsed().as_millis() as u64;
+            if now.saturating_sub(started) > limit_s * 1000 && WATCH[0].load(SeqCst) == idx {
+                eprintln!("WATCHDOG run_index={} seed={} did not finish within {limit_s}s (hang without scheduling points)", idx - 1, WATCH[1].load(SeqCst));
+                std::process::exit(4);
+            }
+        }
+    });
+    WATCH[2].store(0, SeqCst);
+    let _ = t0;
+}
+
+fn watch_begin(idx: u64, seed: u64, t0: &Instant) {
+    use std::sync::atomic::Ordering::SeqCst;
+    WATCH[1].store(seed, SeqCst);
+    WATCH[2].store(t0.elapsed().as_millis() as u64, SeqCst);
+    WATCH[0].store(idx + 1, SeqCst);
+}
+
+fn watch_end() {
+    WATCH[0].store(0, std::sync::atomic::Ordering::SeqCst);
+}
+
 pub fn main(scenarios: &[Scenario]) -> ! {
     install_panic_hook();
     let args = parse_args();
@@ -177,6 +219,7 @@ pub fn main(scenarios: &[Scenario]) -> ! {
     let known = load_known(&args.known);
     let total_w: u64 = mine.iter().map(|s| s.weight as u64).sum();
     let t0 = Instant::now();
+    start_watchdog(60);
     let mut out = WorkerOut {
         property: args.prop.clone(),
         ..Default::default()
@@ -212,7 +255,9 @@ pub fn main(scenarios: &[Scenario]) -> ! {
             *c += 1;
             (*c <= 4 && args.start == 0) || args.log_all
         };
+        watch_begin(i, seed, &t0);
         let f = execute(&scen.run, Decider::generate(seed), want_sample);
+        watch_end();
         out.runs += 1;
         *out.runs_per_scenario.entry(scen.name.to_string()).or_insert(0) += 1;
         merge.absorb(&f.decider);
@@ -249,6 +294,7 @@ pub fn main(scenarios: &[Scenario]) -> ! {
                 continue;
             }
             let original = f.decider.choices();
+            watch_begin(i, seed, &t0);
             // does it reproduce at all?
             let again = execute(&scen.run, Decider::replay(seed, original.clone()), false);
             match &again.result {
@@ -288,6 +334,7 @@ pub fn main(scenarios: &[Scenario]) -> ! {
                 .replay_dir
                 .join(format!("{}-{}-{}-{}.json", args.prop, scen.name, viol.oracle, seed));
             std::fs::write(&path, serde_json::to_string_pretty(&rf).unwrap()).expect("write replay file");
+            watch_end();
             out.violations.push(FoundViolation {
                 scenario: scen.name.to_string(),
                 seed,
